@@ -31,9 +31,10 @@ impl Sc {
 	}
 }
 
-/// one `<dependency>` of a `<dependencies>` section, as written (group is always [`GROUP`])
+/// one `<dependency>` of a `<dependencies>` section, as written
 #[derive(Clone, Debug, PartialEq, Eq, Hash)]
 pub struct DepDecl {
+	pub group: String,
 	pub artifact: String,
 	pub version: Option<String>,
 	pub scope: Option<Sc>,
@@ -45,6 +46,7 @@ pub struct DepDecl {
 /// one `<dependency>` of a `<dependencyManagement>` section, as written; `import` = `<type>pom</type><scope>import</scope>`
 #[derive(Clone, Debug, PartialEq, Eq, Hash)]
 pub struct MgDecl {
+	pub group: String,
 	pub artifact: String,
 	pub version: String,
 	pub scope: Option<Sc>,
@@ -74,14 +76,18 @@ pub enum Render {
 #[derive(Clone, Debug, PartialEq, Eq, Hash)]
 pub struct Pom {
 	/// the coordinates the file is stored under
+	pub group: String,
 	pub artifact: String,
 	pub version: String,
 	/// whether `<groupId>` / `<version>` are written (otherwise they come from the parent)
 	pub write_group: bool,
 	pub write_version: bool,
-	/// `<parent>`: (artifact, version), group is [`GROUP`]
-	pub parent: Option<(String, String)>,
-	pub packaging_pom: bool,
+	/// `<parent>`: (group, artifact, version)
+	pub parent: Option<(String, String, String)>,
+	/// `<packaging>`; parents and BOMs have `pom`
+	pub packaging: Option<String>,
+	/// `<modelVersion>`; anything but 4.0.0 is outside the statement's domain
+	pub model_version: String,
 	pub dm: Vec<MgDecl>,
 	pub deps: Vec<DepDecl>,
 	pub render: Render,
@@ -89,6 +95,7 @@ pub struct Pom {
 
 #[derive(Clone, Debug, PartialEq, Eq, Hash)]
 pub struct RootDecl {
+	pub group: String,
 	pub artifact: String,
 	pub version: String,
 	pub classifier: Option<String>,
@@ -105,17 +112,44 @@ pub struct Universe {
 	pub roots: Vec<RootDecl>,
 }
 
-/// Maven repository layout: `<repo>/<group with slashes>/<artifact>/<version>/<artifact>-<version>.pom`
+/// The directory of a timestamped snapshot build is the one of its base version: a version of the form
+/// `<base>-<yyyymmdd.hhmmss>-<build number>` lives in `<base>-SNAPSHOT/` (Maven repository layout,
+/// pattern `^(.*)-(\d{8}\.\d{6})-(\d+)$` with ASCII digits).
+pub fn base_version(version: &str) -> String {
+	let b = version.as_bytes();
+	let digits = |r: &[u8]| !r.is_empty() && r.iter().all(u8::is_ascii_digit);
+	// build number: the longest run of ASCII digits at the end
+	let mut i = b.len();
+	while i > 0 && b[i - 1].is_ascii_digit() {
+		i -= 1;
+	}
+	// "-" + 8 digits + "." + 6 digits + "-" before it
+	const STAMP: usize = 1 + 8 + 1 + 6 + 1;
+	if i == b.len() || i < STAMP {
+		return version.to_owned();
+	}
+	let s = i - STAMP;
+	let ok = b[s] == b'-' && digits(&b[s + 1..s + 9]) && b[s + 9] == b'.' && digits(&b[s + 10..s + 16]) && b[s + 16] == b'-';
+	if !ok {
+		return version.to_owned();
+	}
+	// b[s] is an ASCII byte, so s is a character boundary
+	format!("{}-SNAPSHOT", &version[..s])
+}
+
+/// Maven repository layout: `<repo>/<group with slashes>/<artifact>/<base version>/<artifact>-<version>.pom`
 pub fn pom_url(repo_url: &str, group: &str, artifact: &str, version: &str) -> String {
 	let mut s = String::from(repo_url);
 	if !s.ends_with('/') {
 		s.push('/');
 	}
-	s.push_str(&group.replace('.', "/"));
-	s.push('/');
+	for seg in group.split('.') {
+		s.push_str(seg);
+		s.push('/');
+	}
 	s.push_str(artifact);
 	s.push('/');
-	s.push_str(version);
+	s.push_str(&base_version(version));
 	s.push('/');
 	s.push_str(artifact);
 	s.push('-');
@@ -124,12 +158,16 @@ pub fn pom_url(repo_url: &str, group: &str, artifact: &str, version: &str) -> St
 	s
 }
 
+pub fn show_coord(group: &str, artifact: &str, type_: &str, classifier: Option<&str>, version: &str) -> String {
+	format!("{group}:{artifact}:{type_}{}:{version}", classifier.map(|c| format!(":{c}")).unwrap_or_default())
+}
+
 impl Universe {
 	/// url → xml text of everything the repositories serve
 	pub fn served(&self) -> BTreeMap<String, String> {
 		let mut m = BTreeMap::new();
 		for (repo, pom) in &self.files {
-			let url = pom_url(&self.repos[*repo].1, GROUP, &pom.artifact, &pom.version);
+			let url = pom_url(&self.repos[*repo].1, &pom.group, &pom.artifact, &pom.version);
 			if m.insert(url, render(pom)).is_some() {
 				vcore::machinery_fail("generator produced two files for one url");
 			}
@@ -145,7 +183,7 @@ impl Universe {
 		}
 		s.push_str("roots (in order):\n");
 		for r in &self.roots {
-			s.push_str(&format!("  {}:{}:{}{}:{} scope={}\n", GROUP, r.artifact, r.type_, r.classifier.as_deref().map(|c| format!(":{c}")).unwrap_or_default(), r.version, r.scope.name()));
+			s.push_str(&format!("  {} scope={}\n", show_coord(&r.group, &r.artifact, &r.type_, r.classifier.as_deref(), &r.version), r.scope.name()));
 		}
 		s.push_str("files:\n");
 		for (url, xml) in self.served() {
@@ -159,8 +197,8 @@ fn el(name: &str, text: &str) -> String {
 	format!("<{name}>{text}</{name}>")
 }
 
-fn dep_children(artifact: &str, version: Option<&str>, type_: Option<&str>, classifier: Option<&str>, scope: Option<&str>, optional: Option<bool>) -> Vec<String> {
-	let mut c = vec![el("groupId", GROUP), el("artifactId", artifact)];
+fn dep_children(group: &str, artifact: &str, version: Option<&str>, type_: Option<&str>, classifier: Option<&str>, scope: Option<&str>, optional: Option<bool>) -> Vec<String> {
+	let mut c = vec![el("groupId", group), el("artifactId", artifact)];
 	if let Some(v) = version {
 		c.push(el("version", v));
 	}
@@ -199,29 +237,29 @@ pub fn render(p: &Pom) -> String {
 		s.push_str(&format!("</{name}>"));
 		s
 	};
-	let mut top: Vec<String> = vec![el("modelVersion", "4.0.0")];
+	let mut top: Vec<String> = vec![el("modelVersion", &p.model_version)];
 	if p.render == Render::Extras {
 		top.push(el("name", "Some Name"));
 		top.push(el("url", "https://example.invalid/"));
 		top.push("<licenses><license><name>MIT</name><url>https://example.invalid/mit</url></license></licenses>".to_owned());
 	}
-	if let Some((pa, pv)) = &p.parent {
-		top.push(wrap("parent", vec![el("groupId", GROUP), el("artifactId", pa), el("version", pv)], 1));
+	if let Some((pg, pa, pv)) = &p.parent {
+		top.push(wrap("parent", vec![el("groupId", pg), el("artifactId", pa), el("version", pv)], 1));
 	}
 	if p.write_group {
-		top.push(el("groupId", GROUP));
+		top.push(el("groupId", &p.group));
 	}
 	top.push(el("artifactId", &p.artifact));
 	if p.write_version {
 		top.push(el("version", &p.version));
 	}
-	if p.packaging_pom {
-		top.push(el("packaging", "pom"));
+	if let Some(pk) = &p.packaging {
+		top.push(el("packaging", pk));
 	}
 	if !p.dm.is_empty() {
 		let deps: Vec<String> = p.dm.iter().map(|m| {
 			let (ty, sc) = if m.import { (Some("pom"), Some("import")) } else { (m.type_.as_deref(), m.scope.map(Sc::name)) };
-			wrap("dependency", dep_children(&m.artifact, Some(&m.version), ty, m.classifier.as_deref(), sc, None), 3)
+			wrap("dependency", dep_children(&m.group, &m.artifact, Some(&m.version), ty, m.classifier.as_deref(), sc, None), 3)
 		}).collect();
 		let inner = wrap("dependencies", deps, 2);
 		top.push(wrap("dependencyManagement", vec![inner], 1));
@@ -232,7 +270,7 @@ pub fn render(p: &Pom) -> String {
 	}
 	if !p.deps.is_empty() {
 		let deps: Vec<String> = p.deps.iter().map(|d| {
-			wrap("dependency", dep_children(&d.artifact, d.version.as_deref(), d.type_.as_deref(), d.classifier.as_deref(), d.scope.map(Sc::name), d.optional), 2)
+			wrap("dependency", dep_children(&d.group, &d.artifact, d.version.as_deref(), d.type_.as_deref(), d.classifier.as_deref(), d.scope.map(Sc::name), d.optional), 2)
 		}).collect();
 		top.push(wrap("dependencies", deps, 1));
 	} else if p.render == Render::EmptyDeps {
@@ -254,5 +292,104 @@ pub fn render(p: &Pom) -> String {
 		},
 		Render::Pretty => format!("<?xml version=\"1.0\" encoding=\"UTF-8\"?>\n{body}\n"),
 		_ => body,
+	}
+}
+
+// ---------------------------------------------------------------------------------------------
+// naming: the generated universes use one group, one-letter artifact ids and the versions 1 and 2; a naming
+// replaces them consistently (the structure stays what it is)
+
+#[derive(Clone, Debug, PartialEq, Eq)]
+pub struct Naming {
+	pub label: String,
+	/// per base artifact (a, b, c, d): (group, artifactId)
+	pub arts: Vec<(String, String)>,
+	/// parents and BOMs live in `<group of their artifact><suffix>` instead of the artifact's own group
+	pub aux_group_suffix: Option<String>,
+	/// what the versions 1 and 2 are called
+	pub versions: [String; 2],
+	/// what the classifier `k` is called
+	pub classifier: String,
+	/// one more path segment at the end of every repository url (a trailing slash stays one)
+	pub repo_tail: Option<String>,
+}
+
+impl Naming {
+	pub fn identity(label: &str) -> Naming {
+		Naming {
+			label: label.to_owned(),
+			arts: ["a", "b", "c", "d"].iter().map(|a| (GROUP.to_owned(), (*a).to_owned())).collect(),
+			aux_group_suffix: None,
+			versions: ["1".to_owned(), "2".to_owned()],
+			classifier: "k".to_owned(),
+			repo_tail: None,
+		}
+	}
+
+	fn name(&self, group: &str, artifact: &str) -> (String, String) {
+		if group != GROUP {
+			// a name that is not the universe's own (an entry about somebody else's artifact) stays
+			return (group.to_owned(), artifact.to_owned());
+		}
+		let mut it = artifact.chars();
+		let idx = match it.next() {
+			Some(c @ 'a'..='d') => c as usize - 'a' as usize,
+			_ => vcore::machinery_fail(&format!("naming: {group}:{artifact} is not a generated name")),
+		};
+		let suffix = it.as_str();
+		let (g, id) = &self.arts[idx];
+		let group = match (&self.aux_group_suffix, suffix.is_empty()) {
+			(Some(s), false) => format!("{g}{s}"),
+			_ => g.clone(),
+		};
+		(group, format!("{id}{suffix}"))
+	}
+
+	fn version(&self, v: &str) -> String {
+		match v {
+			"1" => self.versions[0].clone(),
+			"2" => self.versions[1].clone(),
+			_ => vcore::machinery_fail(&format!("naming: {v} is not a generated version")),
+		}
+	}
+
+	fn classifier(&self, c: &Option<String>) -> Option<String> {
+		c.as_ref().map(|c| if c == "k" { self.classifier.clone() } else { c.clone() })
+	}
+
+	pub fn apply(&self, u: &Universe) -> Universe {
+		let mut out = u.clone();
+		if let Some(tail) = &self.repo_tail {
+			for (_, url) in &mut out.repos {
+				*url = match url.strip_suffix('/') {
+					Some(u) => format!("{u}/{tail}/"),
+					None => format!("{url}/{tail}"),
+				};
+			}
+		}
+		for r in &mut out.roots {
+			(r.group, r.artifact) = self.name(&r.group, &r.artifact);
+			r.version = self.version(&r.version);
+			r.classifier = self.classifier(&r.classifier);
+		}
+		for (_, p) in &mut out.files {
+			(p.group, p.artifact) = self.name(&p.group, &p.artifact);
+			p.version = self.version(&p.version);
+			if let Some((g, a, v)) = &mut p.parent {
+				(*g, *a) = self.name(g, a);
+				*v = self.version(v);
+			}
+			for m in &mut p.dm {
+				(m.group, m.artifact) = self.name(&m.group, &m.artifact);
+				m.version = self.version(&m.version);
+				m.classifier = self.classifier(&m.classifier);
+			}
+			for d in &mut p.deps {
+				(d.group, d.artifact) = self.name(&d.group, &d.artifact);
+				d.version = d.version.as_deref().map(|v| self.version(v));
+				d.classifier = self.classifier(&d.classifier);
+			}
+		}
+		out
 	}
 }
